@@ -32,11 +32,15 @@ var swaps = map[token.Token][]token.Token{
 }
 
 var gen2 = false
+var gen3 = false
 
 func main() {
 	root := os.Args[1]
 	if len(os.Args) > 2 && os.Args[2] == "-gen2" {
 		gen2 = true
+	}
+	if len(os.Args) > 2 && os.Args[2] == "-gen3" {
+		gen3 = true
 	}
 	enc := json.NewEncoder(os.Stdout)
 	for _, dir := range []string{".", "internal/parser"} {
@@ -96,6 +100,82 @@ func main() {
 				off := func(p token.Pos) int { return fset.Position(p).Offset }
 				emit := func(p, e token.Pos, nw, op string) {
 					enc.Encode(Mut{File: rel, Func: name, Line: fset.Position(p).Line, Pos: off(p), End: off(e), Old: string(src[off(p):off(e)]), New: nw, Op: op})
+				}
+				if gen3 {
+					simple := func(st ast.Stmt) bool {
+						switch st.(type) {
+						case *ast.AssignStmt, *ast.ExprStmt, *ast.IncDecStmt, *ast.SendStmt:
+							return true
+						}
+						return false
+					}
+					ast.Inspect(fd.Body, func(n ast.Node) bool {
+						switch x := n.(type) {
+						case *ast.BlockStmt:
+							for i := 0; i+1 < len(x.List); i++ {
+								a, b := x.List[i], x.List[i+1]
+								if simple(a) && simple(b) {
+									at := string(src[off(a.Pos()):off(a.End())])
+									bt := string(src[off(b.Pos()):off(b.End())])
+									emit(a.Pos(), b.End(), bt+"\n"+at, "swap-statements")
+								}
+							}
+						case *ast.CaseClause:
+							for i := 0; i+1 < len(x.Body); i++ {
+								a, b := x.Body[i], x.Body[i+1]
+								if simple(a) && simple(b) {
+									at := string(src[off(a.Pos()):off(a.End())])
+									bt := string(src[off(b.Pos()):off(b.End())])
+									emit(a.Pos(), b.End(), bt+"\n"+at, "swap-statements")
+								}
+							}
+						case *ast.CallExpr:
+							if len(x.Args) >= 2 {
+								a0 := string(src[off(x.Args[0].Pos()):off(x.Args[0].End())])
+								a1 := string(src[off(x.Args[1].Pos()):off(x.Args[1].End())])
+								if a0 != a1 {
+									emit(x.Args[0].Pos(), x.Args[1].End(), a1+", "+a0, "swap-arguments")
+								}
+							}
+						case *ast.IfStmt:
+							// an if with else: swap the branches
+							if eb, ok := x.Else.(*ast.BlockStmt); ok && x.Init == nil {
+								bt := string(src[off(x.Body.Pos()):off(x.Body.End())])
+								et := string(src[off(eb.Pos()):off(eb.End())])
+								emit(x.Body.Pos(), eb.End(), et+" else "+bt, "swap-branches")
+							}
+						case *ast.ReturnStmt:
+							if len(x.Results) == 2 {
+								if id, ok := x.Results[1].(*ast.Ident); ok && id.Name == "nil" {
+									_ = id
+								}
+							}
+						case *ast.AssignStmt:
+							// x op= y  ->  x = y   (and +=  ->  -=)
+							if x.Tok == token.ADD_ASSIGN {
+								emit(x.TokPos, x.TokPos+2, "-=", "+=->-=")
+								emit(x.TokPos, x.TokPos+2, "=", "+=->=")
+							}
+							if x.Tok == token.SUB_ASSIGN {
+								emit(x.TokPos, x.TokPos+2, "+=", "-=->+=")
+							}
+						case *ast.IncDecStmt:
+							if x.Tok == token.INC {
+								emit(x.TokPos, x.TokPos+2, "--", "++->--")
+							} else {
+								emit(x.TokPos, x.TokPos+2, "++", "--->++")
+							}
+						case *ast.SelectorExpr:
+							// field confusion: head <-> tail, a common slip in ring buffers
+							if x.Sel.Name == "head" {
+								emit(x.Sel.Pos(), x.Sel.End(), "tail", "head->tail")
+							} else if x.Sel.Name == "tail" {
+								emit(x.Sel.Pos(), x.Sel.End(), "head", "tail->head")
+							}
+						}
+						return true
+					})
+					continue
 				}
 				if gen2 {
 					ast.Inspect(fd.Body, func(n ast.Node) bool {
